@@ -35,6 +35,9 @@ func newEvalNode(et *ExecutingTask, n *pipeline.EvalNode, d NodeDiagnostic) (*Ev
 	en.refVarList = make([][]string, len(n.Lambdas))
 	expressions := make([]ast.Node, len(n.Lambdas))
 	for i, lambda := range n.Lambdas {
+		if lambda == nil {
+			return nil, fmt.Errorf("nil expression %d passed to node", i)
+		}
 		expressions[i] = lambda.Expression
 		statefulExpr, err := stateful.NewExpression(lambda.Expression)
 		if err != nil {
